@@ -620,7 +620,7 @@ def run(prog: Program, chk: Check) -> None:
         "`with` runs __exit__ on every exit of its body",
         "Executor used as context manager joins its workers on exit",
     ]
-    p1(prog, chk)
+    chk.call(p1, prog, chk)
     timers = p2(prog, chk)
-    p3(prog, chk, timers)
-    p4(prog, chk, timers)
+    chk.call(p3, prog, chk, timers)
+    chk.call(p4, prog, chk, timers)
